@@ -1619,8 +1619,66 @@ def oracle_C16(run):
     return out
 
 
+# ---------------------------------------------------------------------------
+# C25  h2c upgrade
+# ---------------------------------------------------------------------------
+def oracle_C25(run):
+    out = []
+    client = roles(run)
+    value = {}      # client conn -> (HTTP2-Settings value it produced, its local settings at that time)
+    for i, (op, ol, ml, obs) in enumerate(run.log):
+        if obs is None or op['op'] != 'initiate_upgrade':
+            continue
+        c = conn_of(op)
+        r = res(obs)
+        sa = obs['snap_after']
+        if r[0] != 'ok':
+            continue
+        st1 = sa['streams'].get(1)
+        if client[c]:
+            t = obs['res'].split(' ')[1]
+            if t in ('-', '.'):
+                out.append(fail('client-upgrade-without-settings-value', i))
+                continue
+            value[c] = (bytes.fromhex(t), dict((k, v[0]) for k, v in sa['local'].items() if v and v[0] is not None))
+            if st1 is None or st1[0] != 'HALF_CLOSED_LOCAL':
+                out.append(fail('client-stream-1-not-half-closed-local', i, state=st1[0] if st1 else None))
+                continue
+            if sa['hi_out'] != 1:
+                out.append(fail('client-watermark-after-upgrade', i, hi_out=sa['hi_out']))
+                continue
+        else:
+            if st1 is None or st1[0] != 'HALF_CLOSED_REMOTE':
+                out.append(fail('server-stream-1-not-half-closed-remote', i, state=st1[0] if st1 else None))
+                continue
+            if sa['hi_in'] != 1 or sa['hi_out'] != 0:
+                out.append(fail('server-watermarks-after-upgrade', i, hi_in=sa['hi_in'], hi_out=sa['hi_out']))
+                continue
+            hdr = op.get('settings_header')
+            for cc, (val, loc) in value.items():
+                if hdr is not None and hdr == val:
+                    # identifiers >= 256 are truncated by hyperframe (D21, a dependency): not judged
+                    view = dict((k, v[0]) for k, v in sa['remote'].items() if v)
+                    bad = [(k, loc[k], view.get(k)) for k in loc if k < 256 and view.get(k) != loc[k]]
+                    if bad:
+                        out.append(fail('server-view-differs-from-client-settings', i, differs=bad[:4]))
+    # afterwards: first new ids are 3 and 2
+    for i, (op, ol, ml, obs) in enumerate(run.log):
+        if obs is None or op['op'] != 'q' or op['what'] != 'next_stream_id':
+            continue
+        c = conn_of(op)
+        sb = obs['snap_before']
+        r = res(obs)
+        if r[0] == 'ok' and sb['hi_out'] in (0, 1) and 1 in sb['streams'] or (r[0] == 'ok' and sb['hi_out'] in (0, 1) and sb['hi_in'] == 1):
+            want = 3 if client[c] else 2
+            if sb['hi_out'] == (1 if client[c] else 0) and (sb['hi_in'] == (0 if client[c] else 1) or 1 in sb['streams']) and int(r[1]) != want \
+                    and any(o2['op'] == 'initiate_upgrade' and conn_of(o2) == c for o2, _, _, _ in run.log[:i]):
+                out.append(fail('first-id-after-upgrade', i, got=int(r[1]), want=want))
+    return out
+
+
 ORACLES = {
     'C02': oracle_C02, 'C03': oracle_C03, 'C04': oracle_C04, 'C05': oracle_C05, 'C07': oracle_C07, 'C08': oracle_C08,
     'C09': oracle_C09, 'C10': oracle_C10, 'C12': oracle_C12, 'C16': oracle_C16, 'C13': oracle_C13, 'C17': oracle_C17, 'C18': oracle_C18,
-    'C19': oracle_C19, 'C21': oracle_C21, 'C22': oracle_C22, 'C24': oracle_C24, 'C26': oracle_C26, 'C27': oracle_C27, 'C29': oracle_C29,
+    'C19': oracle_C19, 'C21': oracle_C21, 'C22': oracle_C22, 'C24': oracle_C24, 'C25': oracle_C25, 'C26': oracle_C26, 'C27': oracle_C27, 'C29': oracle_C29,
 }
